@@ -39,7 +39,12 @@ def plan(tier, seed):
     kinds = ['dwt1d', 'idwt1d', 'dwt2d', 'idwt2d', 'swt', 'dtcwt', 'idtcwt', 'scat', 'scat2']
     jobs = [{'fn': 'precision', 'cfg': {'kind': k, 'input': p}, 'grid': {'x': [0, 1, 2] if dense else [0]}}
             for k in kinds for p in ('randn', 'range', 'sparse', 'const')]
+    def default_replay(g):
+        dt = any(k in g.gid for k in ('q2c', 'c2q', 'filt', 'fwd_level', 'inv_level', 'FWD_J', 'INV_J'))
+        kinds_ = ['dtcwt', 'idtcwt', 'scat'] if dt else (['swt'] if 'SWT' in g.gid else ['dwt1d', 'idwt1d', 'dwt2d', 'idwt2d', 'swt'])
+        return [rp('precision', kind=k, input='randn') for k in kinds_]
     return {
+        'default_replay': default_replay,
         'groups': gs,
         'native': [('bounded.py', [write_jobs('C16', jobs), seed], 'bounded: output dtype, float32-vs-float64 error bound, .double() module vs float64-built module, strided vs contiguous input (real modules)')],
         'level': 'other', 'trusted_base': TRUSTED,
